@@ -103,8 +103,9 @@ func TestC07_Fsmx(t *testing.T) {
 				}
 			}
 			// the initiator may learn that the responder is done while blocks still arrive (still a transferring status)
-			if spec.SelfInitiator && !statusMoved && rapid.IntRange(0, 5).Draw(t, "respCompletes") == 0 {
-				h.do(Act{Kind: "ResponderCompletes"})
+			if spec.SelfInitiator && !statusMoved && rapid.IntRange(0, 4).Draw(t, "respCompletes") == 0 {
+				// both are still transferring statuses for the initiator
+				h.do(Act{Kind: rapid.SampledFrom([]string{"ResponderCompletes", "ResponderBeginsFinalization"}).Draw(t, "responderWord")})
 				statusMoved = true
 			}
 		}
@@ -204,20 +205,22 @@ func TestC08_Fsmx(t *testing.T) {
 		}
 		kind := limitedKind(spec.Pull)
 		for i := 0; i < n; i++ {
-			switch rapid.IntRange(0, 9).Draw(t, "between") {
-			case 0:
-				h.doReopen()
-			case 1, 2:
-				l := drawLimit("raise")
-				schedule = append(schedule, l)
-				h.do(Act{Kind: "SetDataLimit", Limit: l})
-				if rapid.Bool().Draw(t, "resume") {
-					h.do(Act{Kind: "ResumeResponder"})
-				}
-			case 3:
-				if i > 0 { // replay of an earlier position
-					p := rapid.IntRange(0, i-1).Draw(t, "replayPos")
-					h.do(Act{Kind: kind, Index: int64(p + 1), Delta: sizes[p], Unique: true})
+			for nb := rapid.IntRange(1, 2).Draw(t, "betweenActions"); nb > 0; nb-- {
+				switch rapid.IntRange(0, 9).Draw(t, "between") {
+				case 0:
+					h.doReopen()
+				case 1, 2:
+					l := drawLimit("raise")
+					schedule = append(schedule, l)
+					h.do(Act{Kind: "SetDataLimit", Limit: l})
+					if rapid.Bool().Draw(t, "resume") {
+						h.do(Act{Kind: "ResumeResponder"})
+					}
+				case 3:
+					if i > 0 { // replay of an earlier position
+						p := rapid.IntRange(0, i-1).Draw(t, "replayPos")
+						h.do(Act{Kind: kind, Index: int64(p + 1), Delta: sizes[p], Unique: true})
+					}
 				}
 			}
 			h.do(Act{Kind: kind, Index: int64(i + 1), Delta: sizes[i], Unique: true})
